@@ -139,3 +139,6 @@ func (s *Session) VerifState() (txn *Transaction, starting, ended bool) {
 func (s *Stream) VerifState() (last interface{}, pending int, closed, dropped bool, err error) {
 	return s.last, len(s.signal), s.closed, s.dropped, s.error
 }
+
+// VerifCatalog returns the published catalog (without locking).
+func (e *Engine) VerifCatalog() *Catalog { return e.catalog }
